@@ -312,6 +312,19 @@ func GenRecipe(r *RNG, opt GenOpts) Recipe {
 	if r.Bool(opt.ZeroBase) {
 		rc.Base = "zero"
 	}
+	if r.Bool(0.06) {
+		// a policy that allows no element at all (StrictPolicy as shipped, plus at most a few
+		// switch-like options): the most common real-world use, and a natural target of fast paths
+		rc.Base = r.Pick([]string{"strict", "strict", "striptags", "new"})
+		for _, o := range []Op{{K: "AddSpaceWhenStrippingTag", B: true}, {K: "SkipElementsContent", Names: []string{r.Pick([]string{"div", "p", "my-el"})}},
+			{K: "AllowElementsContent", Names: []string{r.Pick([]string{"title", "iframe", "object", "noscript"})}}, {K: "RequireParseableURLs", B: true},
+			{K: "AllowDataAttributes"}, {K: "RequireNoFollowOnLinks", B: true}} {
+			if r.Bool(0.2) {
+				rc.Ops = append(rc.Ops, o)
+			}
+		}
+		return rc
+	}
 	elPool := append(append([]string{}, stdEls...), customEls...)
 	if opt.Fresh != "" {
 		elPool = append(elPool, "my-r"+opt.Fresh, "r"+opt.Fresh+"-el")
@@ -837,6 +850,19 @@ func (g *inGen) node(depth int) {
 		g.raw(g.r.Pick(rawTextEls))
 	case w < 93:
 		sb.WriteString("</" + g.caseMut(g.elName()) + g.r.Pick([]string{">", " >", " x=y>", "/>"}))
+	case w < 96:
+		// open and close tags of skip-content elements in odd orders (stray end tag first, nested,
+		// unbalanced): the skip counter / flag / stack of the token loop
+		els := []string{"object", "iframe", "title", "noscript", "frameset", "noembed", "noframes", "nostyle", "frame", g.elName()}
+		for i, n := 0, g.r.Range(2, 6); i < n; i++ {
+			x := g.r.Pick(els)
+			if g.r.Bool(0.5) {
+				sb.WriteString("<" + g.caseMut(x) + ">")
+			} else {
+				sb.WriteString("</" + g.caseMut(x) + ">")
+			}
+			sb.WriteString(g.r.Pick([]string{"", "t", "x<b>y</b>", " "}))
+		}
 	default:
 		sb.WriteString(g.r.Pick(garbageForms))
 	}
